@@ -413,14 +413,6 @@ struct RenderTableRow {
 }
 
 impl RenderTableRow {
-    /// Move the content nodes out of all cells.
-    fn take_children(&mut self) -> Vec<RenderNode> {
-        self.cells
-            .iter_mut()
-            .flat_map(|c| std::mem::take(&mut c.content))
-            .collect()
-    }
-
     /// Return a mutable iterator over the cells.
     fn cells(&self) -> std::slice::Iter<RenderTableCell> {
         self.cells.iter()
@@ -663,7 +655,7 @@ enum RenderNodeInfo {
 }
 
 /// Common fields from a node.
-#[derive(Clone, Debug)]
+#[derive(Debug)]
 struct RenderNode {
     size_estimate: Cell<Option<SizeEstimate>>,
     info: RenderNodeInfo,
@@ -681,12 +673,69 @@ impl Drop for RenderNode {
     }
 }
 
+/// Cloning must not recurse either, for the same reason.
+impl Clone for RenderNode {
+    fn clone(&self) -> Self {
+        enum Step<'a> {
+            Enter(&'a RenderNode),
+            Exit(&'a RenderNode, usize),
+        }
+        // `done` holds the finished clones; when a node is left, its children
+        // are the last ones there, in order.
+        let mut done: Vec<RenderNode> = Vec::new();
+        let mut todo = vec![Step::Enter(self)];
+        while let Some(step) = todo.pop() {
+            match step {
+                Step::Enter(node) => {
+                    let children = node.info.children();
+                    todo.push(Step::Exit(node, children.len()));
+                    todo.extend(children.into_iter().rev().map(Step::Enter));
+                }
+                Step::Exit(node, num_children) => {
+                    let children = done.split_off(done.len() - num_children);
+                    let mut info = node.info.clone_childless();
+                    info.put_children(children, &node.info);
+                    done.push(RenderNode {
+                        size_estimate: node.size_estimate.clone(),
+                        info,
+                        style: node.style.clone(),
+                    });
+                }
+            }
+        }
+        done.pop().expect("the clone of the root node")
+    }
+}
+
 impl RenderNodeInfo {
-    /// Move the child nodes out of this node (leaving it without children).
-    fn take_children(&mut self) -> Vec<RenderNode> {
+    /// The table cells directly held by this node, if it is a table node.
+    fn cells(&self) -> Vec<&RenderTableCell> {
         use RenderNodeInfo::*;
         match self {
-            Text(_) | Img(_, _) | Break | FragStart(_) => Vec::new(),
+            Table(t) => t.rows.iter().flat_map(|r| r.cells.iter()).collect(),
+            TableBody(rows) => rows.iter().flat_map(|r| r.cells.iter()).collect(),
+            TableRow(r, _) => r.cells.iter().collect(),
+            TableCell(c) => vec![c],
+            _ => Vec::new(),
+        }
+    }
+
+    /// As `cells`, mutably.
+    fn cells_mut(&mut self) -> Vec<&mut RenderTableCell> {
+        use RenderNodeInfo::*;
+        match self {
+            Table(t) => t.rows.iter_mut().flat_map(|r| r.cells.iter_mut()).collect(),
+            TableBody(rows) => rows.iter_mut().flat_map(|r| r.cells.iter_mut()).collect(),
+            TableRow(r, _) => r.cells.iter_mut().collect(),
+            TableCell(c) => vec![c],
+            _ => Vec::new(),
+        }
+    }
+
+    /// The list of child nodes of a node which is not a table node.
+    fn child_list_mut(&mut self) -> Option<&mut Vec<RenderNode>> {
+        use RenderNodeInfo::*;
+        match self {
             Container(v)
             | Link(_, v)
             | Em(v)
@@ -703,11 +752,111 @@ impl RenderNodeInfo {
             | Dt(v)
             | Dd(v)
             | ListItem(v)
-            | Sup(v) => std::mem::take(v),
-            Table(t) => t.rows.iter_mut().flat_map(RenderTableRow::take_children).collect(),
-            TableBody(rows) => rows.iter_mut().flat_map(RenderTableRow::take_children).collect(),
-            TableRow(r, _) => r.take_children(),
-            TableCell(c) => std::mem::take(&mut c.content),
+            | Sup(v) => Some(v),
+            Text(_) | Img(_, _) | Break | FragStart(_) | Table(_) | TableBody(_)
+            | TableRow(_, _) | TableCell(_) => None,
+        }
+    }
+
+    /// The child nodes (for table nodes, the contents of all cells in order).
+    fn children(&self) -> Vec<&RenderNode> {
+        use RenderNodeInfo::*;
+        match self {
+            Container(v)
+            | Link(_, v)
+            | Em(v)
+            | Strong(v)
+            | Strikeout(v)
+            | Code(v)
+            | Block(v)
+            | Header(_, v)
+            | Div(v)
+            | BlockQuote(v)
+            | Ul(v)
+            | Ol(_, v)
+            | Dl(v)
+            | Dt(v)
+            | Dd(v)
+            | ListItem(v)
+            | Sup(v) => v.iter().collect(),
+            _ => self.cells().into_iter().flat_map(|c| c.content.iter()).collect(),
+        }
+    }
+
+    /// Move the child nodes out of this node (leaving it without children).
+    fn take_children(&mut self) -> Vec<RenderNode> {
+        match self.child_list_mut() {
+            Some(v) => std::mem::take(v),
+            None => self
+                .cells_mut()
+                .into_iter()
+                .flat_map(|c| std::mem::take(&mut c.content))
+                .collect(),
+        }
+    }
+
+    /// Give the children back to a node made by `clone_childless` from `shape`.
+    fn put_children(&mut self, children: Vec<RenderNode>, shape: &RenderNodeInfo) {
+        match self.child_list_mut() {
+            Some(v) => *v = children,
+            None => {
+                let mut children = children.into_iter();
+                for (cell, orig) in self.cells_mut().into_iter().zip(shape.cells()) {
+                    cell.content = children.by_ref().take(orig.content.len()).collect();
+                }
+            }
+        }
+    }
+
+    /// Clone this node without its child nodes.
+    fn clone_childless(&self) -> RenderNodeInfo {
+        use RenderNodeInfo::*;
+        fn row(r: &RenderTableRow) -> RenderTableRow {
+            RenderTableRow {
+                cells: r.cells.iter().map(cell).collect(),
+                col_sizes: r.col_sizes.clone(),
+                style: r.style.clone(),
+            }
+        }
+        fn cell(c: &RenderTableCell) -> RenderTableCell {
+            RenderTableCell {
+                colspan: c.colspan,
+                content: Vec::new(),
+                size_estimate: c.size_estimate.clone(),
+                col_width: c.col_width,
+                style: c.style.clone(),
+            }
+        }
+        match self {
+            Text(s) => Text(s.clone()),
+            Img(src, title) => Img(src.clone(), title.clone()),
+            Break => Break,
+            FragStart(name) => FragStart(name.clone()),
+            Container(_) => Container(Vec::new()),
+            Link(target, _) => Link(target.clone(), Vec::new()),
+            Em(_) => Em(Vec::new()),
+            Strong(_) => Strong(Vec::new()),
+            Strikeout(_) => Strikeout(Vec::new()),
+            Code(_) => Code(Vec::new()),
+            Block(_) => Block(Vec::new()),
+            Header(level, _) => Header(*level, Vec::new()),
+            Div(_) => Div(Vec::new()),
+            BlockQuote(_) => BlockQuote(Vec::new()),
+            Ul(_) => Ul(Vec::new()),
+            Ol(start, _) => Ol(*start, Vec::new()),
+            Dl(_) => Dl(Vec::new()),
+            Dt(_) => Dt(Vec::new()),
+            Dd(_) => Dd(Vec::new()),
+            ListItem(_) => ListItem(Vec::new()),
+            Sup(_) => Sup(Vec::new()),
+            Table(t) => Table(RenderTable {
+                rows: t.rows.iter().map(row).collect(),
+                num_columns: t.num_columns,
+                size_estimate: t.size_estimate.clone(),
+            }),
+            TableBody(rows) => TableBody(rows.iter().map(row).collect()),
+            TableRow(r, vert) => TableRow(row(r), *vert),
+            TableCell(c) => TableCell(cell(c)),
         }
     }
 }
